@@ -22,7 +22,8 @@ def value_for(rng, T, f, undecodable_ok=True):
         mem = T["enums"][k["enum"]]["members"]
         if r < 0.85:
             return rng.choice(mem)[1]
-        return rng.choice(["", "Bogus", "on", " On", "Ｏn", rng.choice(mem)[1] + "x"])
+        # (non-ASCII near-misses only for pure enumerations: a numeric converter in front would make the model silent)
+        return rng.choice(["", "Bogus", "on", "On ", rng.choice(mem)[1] + "x"] + (["Ｏn"] if conv["k"] == "enum" else []))
     if k["k"] == "str":
         return rng.choice(["", "Living Room", "a:b=c", "ÄÖÜ ß", "𝄞 tune", "@x", "x" * rng.randint(1, 40), "12", " lead", "= ="])
     if k["k"] in ("int", "intOrNone"):
@@ -85,6 +86,16 @@ def run(ctx: core.Ctx):
                 S.initialize(i)
         n = rng.choice([0, 1, 5, 30, 120, 400]) if not thorough else rng.choice([0, 1, 5, 30, 120, 400, 1000])
         hist = gen_history(rng, T, n)
+        # values on which the model is silent (exotic numeric syntax somewhere in the converter chain) stay out of the binding stream
+        py_of = {c["id"]: c["py"] for c in T["classes"]}
+        fnames = {(c["id"], f["name"]) for c in T["classes"] for f in c["fns"]}
+        q = [(i, f"{py_of[su]} {fn} {core.hx(val)}") for i, (st, su, fn, val) in enumerate(hist) if (su, fn) in fnames and val is not None]
+        if q:
+            for (i, _), vd in zip(q, core.run_driver("decode", [x[1] for x in q])):
+                if vd == "U":
+                    ctx.count("value:model-unspecified(replaced)")
+                    st, su, fn, val = hist[i]
+                    hist[i] = (st, su, fn, "Bogus")
         # oracle
         last = {}
         fn_of = {(c["id"], f["name"]): (ci, f) for ci, c in enumerate(T["classes"]) for f in c["fns"]}
@@ -139,7 +150,7 @@ def run(ctx: core.Ctx):
             else:
                 same = real == m
             if not same:
-                disagreements.append({"history": hno, "op_index": i, "op": op, "meta": str(S.meta[i]), "real": real[:300], "model": m[:300]})
+                disagreements.append({"history": hno, "op_index": i, "op": op, "meta": str(S.meta[i]), "real": real[:300], "model": m[:300], "diff": sorted(set(real.split()) ^ set(m.split()))[:6]})
                 break
         if hno < 3:
             ctx.sample({"history_len": len(hist), "initialized": init, "first_ops": S.ops[24:30] if len(S.ops) > 30 else S.ops[:6]})
